@@ -13,10 +13,12 @@ def name_id(name: str) -> int:
         return ALPHA.index(name)
     if len(name) == 2 and name[0] == "V" and name[1].isdigit():
         return 100 + int(name[1])
+    if len(name) == 4 and name.startswith("T_V") and name[3].isdigit():
+        return 50 + int(name[3])
     if name.startswith("pi") and name[2:].isdigit() and len(name) == 3:
         return 200 + int(name[2])
     if name == "pi*":
-        return 210
+        return 200
     if name.startswith("π") and name[1:].isdigit():
         return 200 + int(name[1:])
     raise ValueError(f"unsupported name {name!r}")
@@ -27,7 +29,7 @@ def id_name(i: int) -> str:
         return ALPHA[i]
     if i < 200:
         return f"V{i - 100}"
-    return "pi*" if i == 210 else f"pi{i - 200}"
+    return "pi*" if i == 200 else f"pi{i - 200}"
 
 
 def c_star(s) -> str:
